@@ -236,6 +236,9 @@ def validated_seq(cx, V, S):
 
 
 class ListMutator(Contract):
+    # the concrete oracle asked when the function leaves the verifier's subset (rewritten loop, new construct): random
+    # operations against the builtin model on validated items, every clause of the statement evaluated on the real code
+    undecided_probe = dict(harness="containers", family="list_probe", trials=4000)
     path = PATH
     properties = ("C05", "C04", "C19")
     cls = "TraitList"
@@ -565,16 +568,46 @@ class TLIAdd(TLExtend):
 
 @register
 class TLIMul(ListMutator):
+    """`*=`: integer multipliers, and multipliers that are no integers at all (float, Fraction ...: objects without
+    __index__, comparable with 1): list raises TypeError there and stays as it was"""
     qualname = "TraitList.__imul__"
+    overloads = ("default", "non-index-multiplier")
+
+    def configure(self, cx, I, ov):
+        ListMutator.configure(self, cx, I, ov)
+        if ov == "non-index-multiplier":
+            cx.non_index_objects = True
+            lt1 = z3.Bool("multiplier_less_than_1")
+
+            def compare_hook(I2, op, a, b, st, k):
+                # <non-integer> < 1: some truth value (0.5 < 1, 2.5 < 1) -- or a TypeError of its own ("5" < 1)
+                import ast as _ast
+                if isinstance(op, _ast.Lt) and isinstance(a, VElem) and isinstance(b, VInt):
+                    unordered = z3.Bool("multiplier_not_comparable_with_int")
+                    return I2.cx.branch(st, unordered, lambda s: raise_(s, "TypeError", origin=("compare",)), lambda s: k(VBool(lt1), s))
+                return None
+            cx.compare_hook = compare_hook
 
     def args(self, cx, ov, st):
+        if ov == "non-index-multiplier":
+            v = z3.Const("value_without_index", Val)
+            return st, [VElem(v)], {}, dict(m=None, v=v, witness={})
         m = z3.Int("value")
         return st, [VInt(m)], {}, dict(m=m, witness=dict(value=m))
 
     def concrete_args(self, U, ov, info):
+        if ov == "non-index-multiplier":
+            return dict(value=0.5)
         return dict(value=U.int(info["m"]))
 
+    def covers(self, cx, ov, info):
+        if ov == "non-index-multiplier":
+            return [("refused-with-TypeError", lambda k, p, s: k == "raise" and p.cname == "TypeError")]
+        return ListMutator.covers(self, cx, ov, info)
+
     def reference(self, cx, I, ov, info):
+        if ov == "non-index-multiplier":
+            return [], [("raise", VExc(cname="TypeError"), z3.BoolVal(True), info["s0"], None)]
         return [], self.run_builtin(I, info, "__imul__", [VInt(info["m"])])
 
 
